@@ -119,6 +119,14 @@ def h_stmt(vm, mir, stmt, forces=(), full_numerals=False):
     gen.line = LINE
     for k, v in forces:
         if k.endswith(('.first', '.Expression.0')): gen.deep[k] = 1 if v == 'BinaryExpression' else 2    # forced right-hand side root (+ one free level; operands of a binary root are leaves of every literal kind)
+    # layout: everything on one line, or (Put-like) the value on the statement's first line and the target on the next one;
+    # the diagnostic belongs to the statement's first line in both (a target *before* the value on an earlier line is not judged)
+    if stmt == 'Assignment' and vm.fork(2, note='layout') == 1:
+        orig_gen = gen.gen
+        def gen_with_line(ty, depth, path='root'):
+            gen.line = LINE + 1 if '.Assignment.dest' in path else LINE
+            return orig_gen(ty, depth, path)
+        gen.gen = gen_with_line
     adt, node = gen.gen('Statement', 2, 'root')
     cache = install_fmt_stub(vm, full_numerals)
     vm.describe = lambda m: describe(vm, node, cache, m)
@@ -306,8 +314,59 @@ def describe(vm, node, cache, m):
     return out
 
 
+CONCRETE_CONSTANTS = ['0', '5', '10', '105', '0.5', '1234.5678', '1000000000000000', '9007199254740993', '9223372036854775808', '18446744073709551616', '100000000000000000000',
+                      '123456789012345678901234567890', '0.000001', '99999999999999999999.5', '10 times 10', '10000000000 times 10000000000', '1 over 8', '3 minus 1, 1', '255 over 5, 3']
+
+
+def h_concrete(vm, mir):
+    """end to end on concrete constants (real parser, real folder, real pass, exact f64 rendering -- no rendering stub): the issue names
+    the value the interpreter would assign, and the poetic words of the suggestion spell exactly the named value"""
+    from ..progrun import parse_in_vm, exec_in_vm
+    from .C19 import diag_list, text_of
+    lit = CONCRETE_CONSTANTS[vm.fork(len(CONCRETE_CONSTANTS), note='constant')]
+    form = vm.fork(3, note='form')
+    src = [f'Put {lit} into X\n', f'X is {lit}\n', f'Rock X with {lit}\n'][form]
+    d = lambda m: {'program': src}
+    vm.describe = d
+    out = []
+    def bad(role, detail):
+        m = model_of(vm)
+        if m is not None: out.append(finding('violation', role, detail, d(m), vm.notes))
+    vm.witness = {'stmt-done'}
+    r = conc(vm, parse_in_vm(vm, mir, src))
+    if r.variant == 1: raise Unmodelled(f'concrete constant program does not parse: {src!r}')
+    prog = r.fields[0]
+    bp = resolve_method(vm, mir, 'BoringAssignmentPass', 'VisitProgram', 'visit_program')
+    lr = vm.run_fn(bp[0], [R(Adt('BoringAssignmentPass', 0, [])), R(prog)], bp[1])
+    if lr.variant != 0: bad('lint-fails', 'the pass returned an error'); return out
+    diags = diag_list(vm, mir, lr.fields[0])
+    if len(diags) != 1: bad('misses-constant', f'{len(diags)} diagnostics for a constant assignment'); return out
+    issue = text_of(vm, diags[0].fields[0]); suggs = [text_of(vm, x) for x in diags[0].fields[1].fields[0].items]
+    m1 = re.fullmatch(r"Assignment of literal value `(.*)` into `(.*)` isn't very rock'n'roll", issue, re.S)
+    if not m1: bad('issue-text', f'unexpected issue text {issue!r}'); return out
+    shown = m1.group(1)
+    # the value the program assigns: run `say X` (for the push: the pushed element)
+    run_src = src + ('say X\n' if form < 2 else 'say X at 0\n')
+    pr = conc(vm, parse_in_vm(vm, mir, run_src)); res, o, _ = exec_in_vm(vm, mir, pr.fields[0])
+    printed = text_of(vm, o['writes'][0]).rstrip('\n') if o['writes'] else None
+    if printed != shown: bad('issue-value', f'the issue names {shown!r} but the program assigns {printed!r}')
+    for sg in suggs:
+        m2 = re.fullmatch(r'Consider using a poetic literal such as: `(.*)`', sg, re.S)
+        if not m2: bad('suggestion-form', f'unexpected suggestion {sg!r}'); continue
+        body = m2.group(1)
+        pref = 'X is ' if form < 2 else 'Rock X like '
+        if not body.startswith(pref): bad('suggestion-form', f'suggestion {body[:40]!r} does not start with {pref!r}'); continue
+        dec = decode_words(body[len(pref):])
+        if dec is None: bad('suggestion-words', 'the suggestion is not made of poetic placeholder words'); continue
+        numeral = ''.join('.' if x == '.' else str(x) for x in dec)
+        if numeral.rstrip('.') != shown and not (('.' in shown) and numeral == shown):
+            bad('suggestion-words', f'poetic words spell {numeral[:40]} but the reported value is {shown[:40]}')
+    return out
+
+
 def jobs(ctx, tier):
     mir = ctx.mir('dev'); js = []
+    js.append(Job('concrete-constants', h_concrete, (mir,), witness=['stmt-done'], str_mode='bounded', weight=10, fuel=20_000_000))
     ev = mir.src.enums['Expression']
     for v in ev:
         js.append(Job(f'Assignment/rhs={v}', h_stmt, (mir, 'Assignment', (('root.Assignment.0.Assignment.value.ExpressionList.0.ExpressionList.first', v),)), witness=['stmt-done'], str_mode='bounded', weight=8, fuel=6_000_000))
